@@ -155,6 +155,8 @@ class Job:
         sc.yield_point(lambda: self.gates.get(self.j, False))
         LOG.append({"e": "JobEnd", "j": self.j, "w": widx()})
         if self.raises:
+            if self.j % 4 == 3:
+                raise SystemExit("job %d leaves by way of sys.exit()" % self.j)   # (what a remote method may do: that ends the job)
             raise RuntimeError("job %d ends with an exception" % self.j)      # a job may fail; its worker is still the pool's
 
 
